@@ -14,6 +14,7 @@ from ..lib import driver, gen, ser
 ID = "C03"
 LEAN_MODULES = ["TakVerif.Props.C03"]
 NEEDS_STUBS = True
+NEEDS_EXT = True  # the search-reach component imports tak.mcts
 RULE = (
     "positions: random legal play (6 biased policies, sizes 3..8, standard+custom reserves), constructed boards "
     "(with/without tops-only, any ply incl. opening, derived/arbitrary reserves) and targeted boards (tall own stacks on "
@@ -21,7 +22,10 @@ RULE = (
     "vs Gen.allMoves as multisets; Position.move accepted/refused vs Rules.legalb on EVERY well-formed move of the size "
     "(harness enumeration) + every table entry + every generated move + an ill-formed stream; sizes 3..6: table vs model as "
     "sets. One evaluation = one (position, candidate move) pair or one generated move. Non-trivial = a legal (position, move) "
-    "pair, for which generation-exactly-once and table membership were checked; distinct by text."
+    "pair, for which generation-exactly-once and table membership were checked; distinct by text. "
+    "Search reach (third sentence): ONE tak.mcts.MCTS object (evaluator giving every id the cutoff probability) expands roots "
+    "on boards of different sizes in sequence (smaller first, larger first, interleaved); the moves of each root's children "
+    "must be exactly the entries of that size's table that Rules.legalb accepts (driver op `gen legalmask`)."
 )
 TRUSTED = [
     "modelled, not verified: CPython list/tuple semantics, attrs-generated Move.__eq__/__hash__ (used to count multiplicity and look up ids)",
@@ -173,10 +177,80 @@ def _observe(ctx, positions, ill_n):
     return recs
 
 
+# ------------------------------------------------------------------ the search reaches every legal continuation
+
+def _reach_sessions(ctx):
+    """sequences of positions to be searched by ONE engine object during its lifetime"""
+    from ..lib import treedump as td
+
+    rng = ctx.rng
+    orders = [[3, 5], [5, 3], [3, 4, 3], [4, 6, 4], [6, 3], [4, 4, 5]]
+    if ctx.thorough:
+        orders = orders * 3
+    out = []
+    for sizes in orders:
+        ps = [ser.pos_str(rng.choice(td.start_positions(rng, n, 3, custom_prob=0.3))) for n in sizes]
+        out.append({"positions": ps, "seed": rng.randrange(1 << 30)})
+    return out
+
+
+def _reach_run(ctx, sess):
+    """[(key, message)] for one session; the legal set is decided by the driver"""
+    import torch
+    from tak import mcts
+
+    from ..lib import treedump as td
+
+    td.single_thread()
+    torch.manual_seed(sess["seed"])
+    rec = td.Recorder(td.HarnessEvaluator("uniform", sess["seed"], 1e-6), "torch", sess["seed"])
+    rec.capture_solver = False
+    engine = mcts.MCTS(mcts.Config(time_limit=0, simulation_limit=1), rec)
+    seen, lines = [], []
+    with rec:
+        for ps in sess["positions"]:
+            pos = ser.parse_pos(ps.split(" "))
+            try:
+                tree = engine.analyze(pos)
+                kids = sorted(mv(c.move) for c in tree.children)
+            except Exception as e:
+                kids = "crash " + type(e).__name__
+            T = _impl_table(pos.size) or []
+            seen.append((ps, kids, T))
+            lines.append("gen legalmask %s %s" % (ps, ";".join(mv(m) for m in T)))
+    bad = []
+    for k, ((ps, kids, T), mask) in enumerate(zip(seen, driver.run_lines(lines))):
+        if ctx is not None:
+            ctx.evaluated(len(T))
+            ctx.count("reach:searches")
+        want = sorted(mv(m) for m, b in zip(T, mask) if b == "1")
+        if kids == want:
+            continue
+        where = "search %d of %d by one engine object (boards %s) on pos=[%s]" % (
+            k + 1, len(seen), [int(p.split(" ")[0]) for p in sess["positions"]], ps)
+        if isinstance(kids, str):
+            bad.append(("search-misses-legal-move", "%s: the search raised (%s)" % (where, kids)))
+            continue
+        missing = sorted(set(want) - set(kids))
+        extra = sorted(set(kids) - set(want))
+        if missing:
+            bad.append(("search-misses-legal-move", "%s: %d of the %d legal table moves got no child, e.g. %s" % (where, len(missing), len(want), missing[:4])))
+        if extra:
+            bad.append(("search-child-not-legal", "%s: %d children carry a move that is not a legal table move, e.g. %s" % (where, len(extra), extra[:4])))
+        if not missing and not extra:
+            bad.append(("search-misses-legal-move", "%s: children repeat moves (%d children, %d legal moves)" % (where, len(kids), len(want))))
+    return bad
+
+
 def tie(ctx):
     divs = []
     _STATE["obs"] = []
     _STATE["tables"] = {}
+    _STATE["reach"] = []
+    for sess in _reach_sessions(ctx):
+        for key, msg in _reach_run(ctx, sess):
+            _STATE["reach"].append((sess, key, msg))
+            divs.append(Divergence("search.reach", {"reach": sess}, msg, "children = legal table moves"))
     ill_n = 300 if ctx.thorough else 100
     batch = []
 
@@ -342,9 +416,18 @@ def search(ctx, divergences, broken):
     for d in divergences:
         if d.component == "corr.tables":
             d.explained = d.input.get("size") in bad_table_sizes
+        elif d.component == "search.reach":
+            d.explained = True
         elif d.input.get("pos") in bad_pos:
             d.explained = True
     vs = []
+    reach = {}
+    for sess, key, msg in _STATE.get("reach", []):
+        reach.setdefault(key, []).append((sess, msg))
+    for key, lst in reach.items():
+        lst.sort(key=lambda c: len(c[0]["positions"]))
+        sess, msg = lst[0]
+        vs.append(Violation(key, "%s (%d such findings in this run)" % (msg, len(lst)), {"reach": sess, "key": key}))
     for key, lst in by_key.items():
         lst.sort(key=lambda c: (len(c[0]), c[0], c[1] or ""))
         ps, mtxt, msg = lst[0]
@@ -368,6 +451,8 @@ def search(ctx, divergences, broken):
 
 def replay(ctx, data):
     r = data.get("replay", data)
+    if "reach" in r:
+        return [Violation(k, msg, r) for k, msg in _reach_run(ctx, r["reach"])]
     ps, mtxt, key = r["pos"], r.get("move"), r.get("key")
     rec = _reobserve(ctx, ps, [parse_mv(mtxt)] if mtxt else [])
     ctx.evaluated(len(rec["cands"]))
